@@ -293,6 +293,81 @@ def make_cases(run, scratch):
             d = scratch.unpack(tb)
             cases.append(("linux:%s|%s" % (os.path.basename(tb), ";".join(cfg)),
                           ["env HWLOC_COMPONENTS linux,stop", "env HWLOC_THISSYSTEM 1", "env HWLOC_CPUID_PATH"] + cfg + ["src fsroot " + d], "restrict-to-binding"))
+    # Fabricated sysfs trees with INCONSISTENT locality information (what a buggy firmware/kernel reports): packages numbered
+    # round-robin or in blocks, cores of one or two threads, and NUMA nodes / dies / clusters whose cpu masks cut across the
+    # packages, so that insertions by cpuset adopt some siblings and then fail on an intersection - the put-back path of
+    # hwloc___insert_object_by_cpuset with NON-adjacent adopted siblings (seeded change C01i), fully traced (the model
+    # Topo/Insert.v has the put-back; insert_tie compares the trees before/after every call).
+    def fake_sysfs(idx):
+        dst = os.path.join(scratch.dir, "fakesys%d" % idx)
+        if os.path.isdir(dst):
+            return dst
+        def put(rel, txt):
+            pth = os.path.join(dst, rel)
+            os.makedirs(os.path.dirname(pth), exist_ok=True)
+            with open(pth, "w") as f:
+                f.write(txt)
+        targeted = rng.random() < 0.5       # a node made of whole packages that are NOT neighbours plus a part of a later one
+        npkg = rng.choice([4, 5, 6]) if targeted else rng.choice([2, 3, 4])
+        ncpu = npkg * rng.choice([2, 3]) if targeted else rng.choice([4, 6, 8, 8, 12, 16])
+        rr = True if targeted else rng.random() < 0.6
+        pkg_of = [(c % npkg) if rr else (c * npkg // ncpu) for c in range(ncpu)]
+        smt = rng.random() < 0.4
+        os.makedirs(os.path.join(dst, "proc"), exist_ok=True)
+        put("sys/devices/system/cpu/online", "0-%d\n" % (ncpu - 1))
+        put("sys/devices/system/cpu/possible", "0-%d\n" % (ncpu - 1))
+        def mask(cs):
+            return "%x\n" % sum(1 << c for c in cs)
+        for c in range(ncpu):
+            mates = [d for d in range(ncpu) if pkg_of[d] == pkg_of[c]]
+            rank = mates.index(c)
+            core = rank // 2 if smt else rank
+            sib = [d for d in mates if (mates.index(d) // 2 if smt else mates.index(d)) == core]
+            base = "sys/devices/system/cpu/cpu%d/topology/" % c
+            put(base + "physical_package_id", "%d\n" % pkg_of[c])
+            put(base + "core_id", "%d\n" % core)
+            put(base + "thread_siblings", mask(sib))
+            put(base + "core_siblings", mask(mates))
+            if rng.random() < 0.25:      # a die / cluster mask that may cut across
+                cut = sorted(rng.sample(range(ncpu), rng.randint(1, ncpu - 1)))
+                if c in cut:
+                    put(base + rng.choice(["die_cpus", "cluster_cpus"]), mask(cut))
+        nn = rng.choice([1, 2, 2, 3])
+        left = list(range(ncpu))
+        rng.shuffle(left)
+        put("sys/devices/system/node/online", "0-%d\n" % (nn - 1))
+        if targeted:
+            whole = sorted(rng.sample(range(npkg - 1), rng.randint(2, npkg - 2)))
+            if whole == list(range(whole[0], whole[0] + len(whole))):      # make sure one untouched package lies between two taken ones
+                whole = [p for p in whole if p != whole[1]] + ([whole[-1] + 1] if whole[-1] + 1 < npkg - 1 else [])
+                whole = sorted(set(whole))
+            later = [p for p in range(npkg) if p > max(whole)] or [npkg - 1]
+            part_pkg = rng.choice(later)
+            part = [c for c in range(ncpu) if pkg_of[c] == part_pkg][:1]
+            n0 = sorted([c for c in range(ncpu) if pkg_of[c] in whole] + part)
+            rest = [c for c in range(ncpu) if c not in n0]
+            nn = 2 if rest else 1
+            put("sys/devices/system/node/online", "0-%d\n" % (nn - 1))
+            put("sys/devices/system/node/node0/cpumap", mask(n0))
+            put("sys/devices/system/node/node0/meminfo", "Node 0 MemTotal:       1048576 kB\n")
+            if rest:
+                put("sys/devices/system/node/node1/cpumap", mask(rest if rng.random() < 0.5 else rest[:max(1, len(rest) // 2)]))
+                put("sys/devices/system/node/node1/meminfo", "Node 1 MemTotal:       1048576 kB\n")
+            return dst
+        for n in range(nn):
+            take = left if n == nn - 1 else [left.pop() for _ in range(rng.randint(0, max(0, len(left) - (nn - 1 - n))))]
+            if n == nn - 1:
+                left = []
+            if rng.random() < 0.2 and take:
+                take = take + rng.sample(range(ncpu), 1)        # overlapping nodes
+            put("sys/devices/system/node/node%d/cpumap" % n, mask(sorted(set(take))) if take else "0\n")
+            put("sys/devices/system/node/node%d/meminfo" % n, "Node %d MemTotal:       1048576 kB\n" % n)
+        return dst
+    for idx in range(60 if quick else 1500):
+        d = fake_sysfs(idx)
+        cfg = rng.choice([["flags 0"], ["filter 13 0", "flags 0"], ["filter 13 1", "flags 0"], ["filter 13 2", "filter 1 2", "flags 0"], ["filter 2 0", "filter 13 0", "flags 0"]])
+        cases.append(("linux:fakesys-%d|%s" % (idx, ";".join(cfg)),
+                      ["env HWLOC_COMPONENTS linux,stop", "env HWLOC_THISSYSTEM 0", "env HWLOC_CPUID_PATH"] + cfg + ["src fsroot " + d], "linux-mutated"))
     # x86 CPUID dumps restricted to the binding (PUs outside of it are never looked at: /repo 7faf46d, summarize() read the
     # unknown-level ids of such PUs), pristine and with the outermost level of the extended-topology leaves (0xb, 0x1f,
     # 0x80000026) rewritten to a type hwloc does not know (what a newer processor reports)
